@@ -800,10 +800,11 @@ class Component(composites.Composite, metaclass=ComponentType):
             vol = None
             area = self.getArea()
 
-        # change the densities
-        if wipe:
-            self.p.numberDensities = {}  # clear things not passed
-        self.p.numberDensities.update(numberDensities)
+        # change the densities. Assign a new dict rather than updating the old one in place so that a
+        # read-only parameter collection refuses the change before any value is altered.
+        newDensities = {} if wipe else dict(self.p.numberDensities)  # wipe clears things not passed
+        newDensities.update(numberDensities)
+        self.p.numberDensities = newDensities
 
         # check if thermal expansion changed
         dLLnew = self.material.linearExpansionPercent(Tc=self.temperatureInC) / 100.0
